@@ -132,22 +132,25 @@ PROPS = {
                      "handshakes / member lists / unreachable reports for members, non-members and repeated ones; agent reports captured by a recorder registered as the agent, replies by a fake Remoter; "
                      "incarnation counter detects a crash-restart; non-trivial = >= 2 ops",
                 assumptions=["member hosts are pairwise distinct", "zeroconf announcement/discovery and the memberPing timer are not modelled"]),
-    "C09": dict(lean_modules=["HW.Props.C09"], streams=[_ENGINE_STREAM], rule=_ENGINE_RULE, assumptions=_ENGINE_ASSUME, spec_relevant=r"FAIL:(C09|harness)"),
+    "C09": dict(lean_modules=["HW.Props.C09"], streams=[_ENGINE_STREAM], rule=_ENGINE_RULE, assumptions=_ENGINE_ASSUME, spec_relevant=r"FAIL:(\S*C09|harness)"),
     "C12": dict(lean_modules=["HW.Props.C12"], streams=[_ENGINE_STREAM], rule=_ENGINE_RULE, assumptions=_ENGINE_ASSUME, spec_relevant=r"FAIL:(C12|harness)"),
     "C10": dict(lean_modules=["HW.Props.C10"], facts=True,
                 streams=[dict(name="reg", pkg="actor", test="TestVerifReg", shrink_key="ops"),
-                         dict(name="regsched", pkg="actor", test="TestVerifRegSched", shrink_key="sched", extra_overlay=reg_shim_overlay)],
+                         dict(name="regsched", pkg="actor", test="TestVerifRegSched", shrink_key="sched", extra_overlay=reg_shim_overlay),
+                         dict(name="tree", pkg="actor", test="TestVerifTree", shrink_key="ops", timeout=2400, timeout_thorough=3400)],
+                spec_relevant=r"FAIL:(\S*C10|harness)",
                 rule="reg: seeded random histories (2-11 ops over 1-3 ids) of Spawn/Stop/Poison/GetPID/Send through the real Engine with real actors, compared op by op with the id->actor map; "
-                     "regsched: real registry.go under the deterministic scheduler: ALL interleavings of 6 small programs (2-3 threads, concurrent SpawnProc of one id, spawn/remove/respawn) plus seeded random "
+                     "tree (shared with C08): duplicate SpawnChild of a taken name must leave the existing child listed and supervised; regsched: real registry.go under the deterministic scheduler: ALL interleavings of 6 small programs (2-3 threads, concurrent SpawnProc of one id, spawn/remove/respawn) plus seeded random "
                      "programs and schedules, replayed step by step in the model; non-trivial = a duplicate spawn or a stop of a live actor (reg), >= 2 adds (regsched); distinct = distinct inputs",
                 assumptions=["sync.RWMutex mutual exclusion; each Registry method is one critical section (regenerated fact, also exercised: the shim yields at every lock acquisition)"]),
     "C04": dict(lean_modules=["HW.Props.C04"], streams=[_PROC_STREAM, _LIFE_STREAM], rule=_PROC_RULE + _LIFE_RULE, assumptions=_PROC_ASSUME, spec_relevant=r"FAIL:(\S*C04|harness)"),
     "C05": dict(lean_modules=["HW.Props.C05"], streams=[_PROC_STREAM, _LIFE_STREAM], rule=_PROC_RULE + _LIFE_RULE, assumptions=_PROC_ASSUME, spec_relevant=r"FAIL:(\S*C05|harness)"),
     "C06": dict(lean_modules=["HW.Props.C06"], facts=True, streams=[_PROC_STREAM], rule=_PROC_RULE, assumptions=_PROC_ASSUME, spec_relevant=r"FAIL:(\S*C06|harness)"),
-    "C07": dict(lean_modules=["HW.Props.C07"], streams=[_PROC_STREAM, _LIFE_STREAM], rule=_PROC_RULE + _LIFE_RULE, assumptions=_PROC_ASSUME, spec_relevant=r"FAIL:(\S*C07|harness)"),
+    "C07": dict(lean_modules=["HW.Props.C07"], streams=[_PROC_STREAM, _LIFE_STREAM, _ENGINE_STREAM], rule=_PROC_RULE + _LIFE_RULE + " || " + _ENGINE_RULE, assumptions=_PROC_ASSUME, spec_relevant=r"FAIL:(\S*C07|harness)"),
     "C13": dict(lean_modules=["HW.Props.C13"], streams=[_PROC_STREAM, dict(name="mwopts", pkg="actor", test="TestVerifMwOpts")],
                 rule=_PROC_RULE + " || mwopts: 1-3 real actors spawned with WithMiddleware(common...)+WithMiddleware(own) from one shared slice (0-3 common, 0-2 spare capacity), chain observed on a user message after all spawns (exhaustive over that grid)", assumptions=_PROC_ASSUME, spec_relevant=r"FAIL:(\S*C13|harness)"),
-    "C01": dict(lean_modules=["HW.Props.C01"], facts=True, streams=[_SCHED_STREAM, _LIFE_STREAM], rule=_SCHED_RULE + _LIFE_RULE, assumptions=_SCHED_ASSUME,
+    "C01": dict(lean_modules=["HW.Props.C01"], facts=True, streams=[_SCHED_STREAM, _LIFE_STREAM, dict(name="ctxapi", pkg="actor", test="TestVerifCtxAPI")],
+                rule=_SCHED_RULE + _LIFE_RULE + " || ctxapi: one actor makes 1-300 (sometimes 2000-5000) successive Respond / Context.Send / Forward calls to one target inside one Receive (inbox 1/2/3/1024): exact expected log", assumptions=_SCHED_ASSUME,
                 spec_relevant=r"FAIL:(\S*C01|\S*C03|harness)"),
     "C02": dict(lean_modules=["HW.Props.C02"], facts=True, streams=[_SCHED_STREAM, _PROC_STREAM], rule=_SCHED_RULE + " || " + _PROC_RULE,
                 assumptions=_SCHED_ASSUME + ["'no inbox.Start after inbox.Stop' is checked on the process stream (HW.Proc.noReopen)"],
